@@ -201,10 +201,9 @@ CBORBase = TypeVar("CBORBase", bound="CBORSerializable")
 
 
 def decode_array(self, subtype: int) -> Sequence[Any]:
-    # Major tag 4
-    length = self._decode_length(subtype, allow_indefinite=True)
-
-    if length is None:
+    # Major tag 4. The length is read by the decoder's own method: reading it here as well would consume
+    # the length bytes of every array of 24 or more elements twice. Subtype 31 marks an indefinite length.
+    if subtype == 31:
         return IndefiniteList(cast(Primitive, self.decode_array(subtype=subtype)))
     else:
         return self.decode_array(subtype=subtype)
